@@ -415,6 +415,90 @@ fn observe(s: &mut Nls, dir: &Path, case: &Case, fin: &Final) -> Result<Vec<(Str
     Ok(out)
 }
 
+/// Canonical text of the `verif/state` dump (hook H8), in the format of the model driver:
+/// a file id is named `<path>#<k>` = the k-th id allocated for that path.
+fn canon_state(v: &Value) -> String {
+    use std::collections::BTreeMap;
+    let num = |s: &Value| -> u64 {
+        s.as_str().unwrap_or("").chars().filter(|c| c.is_ascii_digit()).collect::<String>().parse().unwrap_or(0)
+    };
+    let mut by_path: BTreeMap<String, Vec<u64>> = BTreeMap::new();
+    let mut vid: BTreeMap<u64, String> = BTreeMap::new();
+    for f in v["files"].as_array().cloned().unwrap_or_default() {
+        let id = num(&f["id"]);
+        by_path.entry(path_index(f["path"].as_str().unwrap_or(""))).or_default().push(id);
+        let src = f["src"].as_str().unwrap_or("");
+        let ver = src
+            .split("version = ")
+            .nth(1)
+            .map(|r| r.chars().take_while(|c| c.is_ascii_digit()).collect::<String>())
+            .unwrap_or_default();
+        vid.insert(id, ver);
+    }
+    let mut name: BTreeMap<u64, String> = BTreeMap::new();
+    for (p, ids) in by_path.iter_mut() {
+        ids.sort();
+        for (k, id) in ids.iter().enumerate() {
+            name.insert(*id, format!("{p}#{k}"));
+        }
+    }
+    let nm = |id: u64| name.get(&id).cloned().unwrap_or(format!("?{id}"));
+    let list = |a: &Value| -> String {
+        let mut xs: Vec<String> = a.as_array().map(|a| a.iter().map(|x| nm(num(x))).collect()).unwrap_or_default();
+        xs.sort();
+        xs.join(".")
+    };
+    let mut out: Vec<String> = vec![];
+    for (id, ver) in &vid {
+        out.push(format!("F{}=v{}", nm(*id), ver));
+    }
+    for e in v["entries"].as_array().cloned().unwrap_or_default() {
+        let k = match e["kind"].as_str().unwrap_or("") {
+            "memory" => "m",
+            "closed" => "c",
+            _ => "f",
+        };
+        out.push(format!("E{}={}{}", path_index(e["path"].as_str().unwrap_or("")), nm(num(&e["id"])), k));
+    }
+    for a in v["analyses"].as_array().cloned().unwrap_or_default() {
+        let mut cls: Vec<String> = a["diags"].as_array().map(|d| d.iter().filter_map(classify).collect()).unwrap_or_default();
+        cls.sort();
+        out.push(format!(
+            "A{}={}/{}/{}",
+            nm(num(&a["id"])),
+            a["state"].as_str().unwrap_or("").to_lowercase(),
+            if a["parse_errors"].as_u64().unwrap_or(0) > 0 { "perr" } else { "ok" },
+            cls.join("+")
+        ));
+    }
+    for i in v["imports"].as_array().cloned().unwrap_or_default() {
+        let l = list(&i["targets"]);
+        if !l.is_empty() {
+            out.push(format!("I{}={}", nm(num(&i["id"])), l));
+        }
+    }
+    for i in v["rev_imports"].as_array().cloned().unwrap_or_default() {
+        let l = list(&i["importers"]);
+        if !l.is_empty() {
+            out.push(format!("R{}={}", nm(num(&i["id"])), l));
+        }
+    }
+    for i in v["failed_imports"].as_array().cloned().unwrap_or_default() {
+        let l = list(&i["importers"]);
+        if !l.is_empty() {
+            out.push(format!("X{}={}", path_index(i["name"].as_str().unwrap_or("")), l));
+        }
+    }
+    for u in v["file_uris"].as_array().cloned().unwrap_or_default() {
+        let id = num(&u["id"]);
+        if name.contains_key(&id) {
+            out.push(format!("U{}={}", nm(id), path_index(u["uri"].as_str().unwrap_or(""))));
+        }
+    }
+    out.sort();
+    out.join(" ")
+}
+
 fn clip(s: &str, n: usize) -> String {
     s.chars().take(n).collect()
 }
@@ -490,7 +574,7 @@ fn fresh(exe: &str, dir: &Path, case: &Case, fin: &Final, reverse: bool, tag: &s
     r.map_err(|_| format!("fresh server died: {} {}", crash_kind(&err), tail(&err, 200)))
 }
 
-fn run_case(exe: &str, root: &Path, idx: usize, line: &str, oracle: bool) -> Value {
+fn run_case(exe: &str, root: &Path, idx: usize, line: &str, oracle: bool, want_state: bool) -> Value {
     let case = parse_case(line);
     let dir = root.join(format!("case{idx}"));
     let _ = fs::remove_dir_all(&dir);
@@ -504,6 +588,7 @@ fn run_case(exe: &str, root: &Path, idx: usize, line: &str, oracle: bool) -> Val
     let mut trace: Vec<String> = vec![];
     let mut crash = Value::Null;
     let mut hist_obs: Option<Vec<(String, String)>> = None;
+    let mut state = Value::Null;
     match Nls::start(exe, &dir, "hist") {
         Err(_) => crash = json!({"step": -1, "kind": "other", "stderr": "server did not start"}),
         Ok(mut s) => {
@@ -524,6 +609,12 @@ fn run_case(exe: &str, root: &Path, idx: usize, line: &str, oracle: bool) -> Val
                         died_at = Some(k as i64);
                         break;
                     }
+                }
+            }
+            if died_at.is_none() && want_state {
+                match s.request("verif/state", Value::Null) {
+                    Ok(v) => state = Value::String(canon_state(&v)),
+                    Err(Dead) => died_at = Some(case.ops.len() as i64),
                 }
             }
             if died_at.is_none() && oracle {
@@ -580,13 +671,14 @@ fn run_case(exe: &str, root: &Path, idx: usize, line: &str, oracle: bool) -> Val
         oracle_v = json!({"checked": checked, "ndiffs": ndiffs, "diffs": diffs, "order_dependent": order_dependent});
     }
     let _ = fs::remove_dir_all(&dir);
-    json!({"trace": trace.join(";"), "crash": crash, "oracle": oracle_v})
+    json!({"trace": trace.join(";"), "crash": crash, "oracle": oracle_v, "state": state})
 }
 
 fn main() {
     let args: Vec<String> = std::env::args().collect();
     let exe = args.get(1).expect("usage: c19 <nls> [--no-oracle]").clone();
     let oracle = !args.iter().any(|a| a == "--no-oracle");
+    let want_state = args.iter().any(|a| a == "--state");
     let root = std::env::temp_dir().join(format!("verif-c19-{}", std::process::id()));
     fs::create_dir_all(&root).unwrap();
     let stdin = std::io::stdin();
@@ -598,7 +690,7 @@ fn main() {
             writeln!(out, "{}", json!({"skip": true})).unwrap();
             continue;
         }
-        let v = run_case(&exe, &root, idx, line, oracle);
+        let v = run_case(&exe, &root, idx, line, oracle, want_state);
         writeln!(out, "{v}").unwrap();
         out.flush().unwrap();
     }
